@@ -3,7 +3,11 @@ Tie B: run Percolate.build through a real dynamics with a scripted shuffle; comp
 handed to occupy/unoccupy and the working network with Model/Percolate.v.
 D: the property restated directly on the implementation's observables.
 A quarter of the cases run the SAME dynamics object a second time (another scripted permutation, possibly another T):
-tie and D are applied to every run against the ORIGINAL edge list (each run starts from the prototype).
+tie and D are applied to every run against the edge list of THAT run's prototype (each run starts from the prototype).
+Half of the second runs are on ANOTHER prototype with the same numbers of nodes and edges, installed with
+setNetworkGenerator between the runs (case['again']['edges']): nothing of the first run's network may survive.
+Half of the cases observe the hooks with a sub-class whose occupy() does NOT chain to Percolate.occupy (documented as
+"the default does nothing"; case['hooks'] == 'observe'), the other half chain both hooks to the defaults.
 "Law" cases (exhaustive part, judged by D only): the build is driven by an enumerating oracle
 (harness/enumoracle.py) over the whole tree of outcomes of the random doors, and the exact probability of every
 retained edge subset must be 1/C(M, floor(T*M)) - uniformity without statistics."""
@@ -50,6 +54,21 @@ def make_graph(rnd, n, kind):
     return g
 
 
+def other_graph_edges(rnd, nodes, es):
+    """another edge list over the same nodes with the SAME number of edges (a different edge set whenever the draw finds
+    one): what a second instance of a fixed-size ensemble, or a swapped prototype of equal shape, looks like"""
+    M = len(es)
+    loops = any(a == b for a, b in es)
+    pairs = list(itertools.combinations(nodes, 2)) + ([(a, a) for a in nodes] if loops else [])
+    first = {norm(e) for e in es}
+    pick = []
+    for _ in range(8):
+        pick = rnd.sample(pairs, M)
+        if {norm(e) for e in pick} != first:
+            break
+    return [list(e) if rnd.random() < 0.5 else [e[1], e[0]] for e in pick]
+
+
 class H(Harness):
     ID = 'C14'
     ANCHOR_FILES = ['epydemic/percolate.py', 'epydemic/processsequence.py', 'epydemic/networkexperiment.py']
@@ -63,7 +82,10 @@ class H(Harness):
             'followed by a probe process that reads the network in build(), setUp() and results() (Percolate first, or after '
             'another probe, or inside a nested sequence, or the probe inside a nested sequence), under StochasticDynamics or '
             'SynchronousDynamics; a quarter of the cases run the same dynamics object twice (second scripted permutation, same '
-            'or another T), every run judged against the original edge list; cases on which float int(M*T) differs from exact '
+            'or another T), half of those second runs on another prototype with the same numbers of nodes and edges installed with '
+            'setNetworkGenerator between the runs (random, and a fixed block: path/star, star/triangle, pentagon/pentagram, the same '
+            'edges relisted, with self-loops; every k), every run judged against the edge list of its own prototype; the hooks are '
+            'observed by a sub-class that chains both to the defaults, or (half of the cases) whose occupy() does not chain; cases on which float int(M*T) differs from exact '
             'floor(M*T) are dropped and counted; law cases (M = 3, 4 edges, every k; D only): the exact distribution of the '
             'retained subset over all outcomes of the random doors (enumerating oracle) must be uniform; '
             'a case is non-trivial when M >= 2 and 0 < occ < M; distinct by (edges, T, permutation, mode, layout, second run)')
@@ -126,6 +148,11 @@ class H(Harness):
                 perm2 = list(range(M))
                 rnd.shuffle(perm2)
                 case['again'] = {'T': T2, 'perm': perm2}
+                if rnd.random() < 0.5:
+                    # ... and from ANOTHER prototype of the same order and size, installed between the runs
+                    case['again']['edges'] = other_graph_edges(rnd, list(g.nodes()), es)
+            if rnd.random() < 0.5:
+                case['hooks'] = 'observe'       # the observing sub-class does not chain occupy() to the default
             out.append(case)
         return out
 
@@ -153,6 +180,35 @@ class H(Harness):
                 if self._floats_agree(M, T) and self._floats_agree(M, T2):
                     out.append({'nodes': nodes, 'edges': [list(e) for e in es], 'T': T, 'perm': list(range(M))[::-1], 'mode': 'seq',
                                 'again': {'T': T2, 'perm': [(i + 1) % M for i in range(M)]}})
+        # two prototypes of the same order and size on one dynamics object (setNetworkGenerator between the runs): every k,
+        # the second network sharing none / some / all-but-orientation of the first one's edges
+        twins = [([(0, 1), (1, 2), (2, 3)], [(0, 1), (0, 2), (0, 3)]),                    # path, then star
+                 ([(0, 1), (0, 2), (0, 3)], [(1, 2), (2, 3), (3, 1)]),                    # star, then a disjoint triangle
+                 ([(0, 1), (1, 2), (2, 0)], [(1, 0), (0, 2), (2, 1)]),                    # the same edges, listed and oriented differently
+                 ([(0, 1), (1, 2), (2, 3), (3, 4), (4, 0)], [(0, 2), (2, 4), (4, 1), (1, 3), (3, 0)]),   # pentagon, pentagram
+                 ([(0, 1), (2, 1), (3, 1), (0, 0)], [(0, 1), (2, 3), (3, 3), (0, 2)])]    # with self-loops
+        for n_, (es, es2) in enumerate(twins):
+            M = len(es)
+            nodes = sorted({x for e in es + es2 for x in e})
+            for j in range(M + 1):
+                for j2 in sorted({j, M - j, M // 2}):
+                    T = min(1.0, (j + 0.5) / M); T2 = min(1.0, (j2 + 0.5) / M)
+                    if self._floats_agree(M, T) and self._floats_agree(M, T2):
+                        c = {'nodes': nodes, 'edges': [list(e) for e in es], 'T': T, 'perm': list(range(M))[::-1], 'mode': ['seq', 'alone'][(j + j2) % 2],
+                             'again': {'T': T2, 'perm': [(i + 2) % M for i in range(M)], 'edges': [list(e) for e in es2]}}
+                        if (n_ + j + j2) % 2:
+                            c['hooks'] = 'observe'
+                        out.append(c)
+        # an observing sub-class that does not chain occupy() to the default: every k, alone and in a sequence
+        for es in shapes[:2]:
+            M = len(es)
+            nodes = sorted({x for e in es for x in e})
+            for j in range(M + 1):
+                T = min(1.0, (j + 0.5) / M)
+                if self._floats_agree(M, T):
+                    for mode in ('alone', 'seq'):
+                        out.append({'nodes': nodes, 'edges': [list(e) for e in es], 'T': T, 'perm': [(i + 1) % M for i in range(M)], 'mode': mode,
+                                    'hooks': 'observe'})
         # the law: exact distribution of the retained subset, every k, M = 3 and 4 (5 in the thorough tier)
         for es in shapes:
             M = len(es)
@@ -205,13 +261,25 @@ class H(Harness):
         g.add_nodes_from(name(x) for x in case['nodes'])
         g.add_edges_from([(name(a), name(b)) for a, b in case['edges']])
         proto_nodes = list(g.nodes()); proto_edges = list(g.edges())
+        again = case.get('again')
+        g2 = None
+        if again and again.get('edges') is not None:
+            # another prototype over the same nodes (same order and labels), installed before the second run
+            g2 = networkx.Graph()
+            g2.add_nodes_from(name(x) for x in case['nodes'])
+            g2.add_edges_from([(name(a), name(b)) for a, b in again['edges']])
+            proto2_nodes = list(g2.nodes()); proto2_edges = list(g2.edges())
         unname = lambda e: (back.get(e[0], -1 - hash(str(e[0])) % 1000), back.get(e[1], -1 - hash(str(e[1])) % 1000))
         rec = {}
 
+        chain_occupy = case.get('hooks') != 'observe'
+
         class RecPercolate(Percolate):
             def occupy(self, occupied):
+                # Percolate.occupy: "The default does nothing" - a sub-class that only observes need not chain to it
                 rec['occupied'] = [unname(tuple(e)) for e in occupied]
-                super().occupy(occupied)
+                if chain_occupy:
+                    super().occupy(occupied)
 
             def unoccupy(self, unoccupied):
                 rec['unoccupied'] = [unname(tuple(e)) for e in unoccupied]
@@ -255,15 +323,17 @@ class H(Harness):
         sync = case.get('dyn') == 'synchronous'
         if sync:
             proc.setMaximumTime(2)        # no events: the synchronous loop runs to the maximum time
-        again = case.get('again')
         plan = [(case['T'], case['perm'])] + ([(again['T'], again['perm'])] if again else [])
         orc = install(Oracle(seed=0, script={'shuffle': [p for _, p in plan]}))
         dyn = (SynchronousDynamics if sync else StochasticDynamics)(proc, g)
         end = {}
         dyn.simulationEnded = lambda res: end.update(nodes=[back.get(x, -1) for x in dyn.network().nodes()], edges=[unname(e) for e in dyn.network().edges()])
         runs = []
-        for T, perm in plan:
+        for r, (T, perm) in enumerate(plan):
             rec.clear(); end.clear()
+            other = r == 1 and g2 is not None
+            if other:
+                dyn.setNetworkGenerator(g2)
             before = len(orc.values('shuffle'))
             exc = None
             try:
@@ -277,7 +347,9 @@ class H(Harness):
                          'next_setup': rec.get('next_setup') if seq else None,
                          'next_results': rec.get('next_results') if seq else None,
                          'before_build': rec.get('before_build'),
-                         'proto_same': list(g.nodes()) == proto_nodes and list(g.edges()) == proto_edges,
+                         'proto_same': (list(g.nodes()) == proto_nodes and list(g.edges()) == proto_edges
+                                        and (g2 is None or (list(g2.nodes()) == proto2_nodes and list(g2.edges()) == proto2_edges))),
+                         'g_edges': [unname(e) for e in (proto2_edges if other else proto_edges)],
                          'shuffles': [list(e[1]) for e in orc.values('shuffle')[before:]]})
             if exc is not None:
                 break
@@ -285,7 +357,9 @@ class H(Harness):
         obs['g_edges'] = [unname(e) for e in proto_edges]
         obs['runs'] = runs
         obs['stats'] = {'cases_alone': int(case['mode'] == 'alone'), 'cases_in_sequence_' + layout: int(case['mode'] == 'seq'),
-                        'cases_synchronous': int(sync), 'cases_run_twice': int(len(runs) == 2), 'runs': len(runs)}
+                        'cases_synchronous': int(sync), 'cases_run_twice': int(len(runs) == 2), 'runs': len(runs),
+                        'cases_second_run_on_another_network': int(len(runs) == 2 and g2 is not None),
+                        'cases_occupy_hook_not_chained': int(not chain_occupy)}
         return obs
 
     # ---------------------------------------------------------------- D
@@ -323,7 +397,7 @@ class H(Harness):
         out = []
         runs = obs.get('runs') or [obs]
         for r, ro in enumerate(runs):
-            for v in self._direct_run(case, ro, ro.get('T', case['T'])):
+            for v in self._direct_run(case, ro, ro.get('T', case['T']), self._run_edges(case, r)):
                 if len(runs) > 1 or r > 0:
                     v['detail'] = {'run': r + 1, 'of': len(runs), 'T': ro.get('T', case['T']), 'what': v.get('detail')}
                 out.append(v)
@@ -331,10 +405,16 @@ class H(Harness):
             out.append({'signature': 'second-run-missing', 'detail': None})
         return out
 
-    def _direct_run(self, case, obs, T):
-        """the property on one run, against the ORIGINAL edge list (every run starts from the prototype)"""
+    @staticmethod
+    def _run_edges(case, r):
+        """the edge list of the prototype in force in run r (0-based): the second run may have been given another one"""
+        ag = case.get('again') or {}
+        return ag['edges'] if r >= 1 and ag.get('edges') is not None else case['edges']
+
+    def _direct_run(self, case, obs, T, edges):
+        """the property on one run, against the edge list of THAT run's prototype (every run starts from the prototype)"""
         v = []
-        es = [tuple(e) for e in case['edges']]
+        es = [tuple(e) for e in edges]
         M = len(es)
         k = math.floor(Fraction(M) * Fraction(T))
         if obs['exception'] or obs['edges'] is None or obs['occupied'] is None or obs['unoccupied'] is None:
@@ -367,7 +447,7 @@ class H(Harness):
         if case.get('law'):
             return None         # judged by D only
         runs = obs.get('runs') or [obs]
-        return L.lst([self._run_to_coq(case, obs['g_edges'], ro) for ro in runs])
+        return L.lst([self._run_to_coq(case, ro.get('g_edges', obs['g_edges']), ro) for ro in runs])
 
     def _run_to_coq(self, case, g_edges, obs):
         T = obs.get('T', case['T']); perm = obs.get('perm', case['perm'])
@@ -380,7 +460,7 @@ class H(Harness):
         if len(obs.get('shuffles', [])) != 1 or obs['shuffles'][0] != perm:
             nodes = [-1]    # the implementation did not use the scripted shuffle exactly once
         f = lambda es: L.lst(es, L.zpair)
-        # every run is modelled from the ORIGINAL edge list
+        # every run is modelled from the edge list of its own prototype
         return ('{| c_nodes := %s; c_edges := %s; c_perm := %s; c_T := %s; o_occupied := %s; o_unoccupied := %s; '
                 'o_nodes := %s; o_edges := %s; o_next_edges := %s |}') % (
             L.lst(case['nodes'], L.z), f(g_edges), L.lst(perm, L.nat), L.q(T),
@@ -392,7 +472,8 @@ class H(Harness):
         if M >= 2 and 0 < k < M:
             ag = case.get('again')
             return (tuple(map(tuple, case['edges'])), case['T'], tuple(case['perm']), case['mode'], case.get('layout'), case.get('dyn'),
-                    bool(case.get('law')), (ag['T'], tuple(ag['perm'])) if ag else None)
+                    bool(case.get('law')), (ag['T'], tuple(ag['perm']), tuple(map(tuple, ag.get('edges') or []))) if ag else None,
+                    case.get('hooks'))
         return None
 
     def sample_view(self, case, obs):
